@@ -237,9 +237,7 @@ def build(p):
                         return ncf[0] > 1
                 ex = Executors.with_poll(tap, mk_poll(i, ly.get("mode", "first")), cfn, default_interval=0.2, name=nm)
             elif t == "throttle" and ly.get("count_fn"):
-                ncalls = [0]
-
-                def count_fn(i=i):
+                def count_fn(i=i, ncalls=[0], ly=ly):
                     ncalls[0] += 1
                     if ncalls[0] >= 2 and ncalls[0] % 2 == 0:
                         E.emit("FnCall", k=i, s="count:raise")
